@@ -215,9 +215,9 @@ def gen(rng, **force):
 #     convert() of the same source directory into the same target (with the same or with an EARLIER clustering: another
 #     number of clusters), optionally followed by damage to the exported files (stale / truncated / removed), then the
 #     judged convert(force=True).  What is judged is the final state, against the model of an export into a fresh directory.
-# histories with a non-empty label: drawn only with VT_C13_LABEL_HISTORY=1 until the repair of rename_with_label (branch
-# fix-c13-r5: files of an earlier export with the same label are replaced, not labelled twice) is on /repo main
-LABEL_HISTORY = os.environ.get('VT_C13_LABEL_HISTORY', '') == '1'
+# histories with a non-empty label: drawn by default since the repair of rename_with_label (fix commit 4e7ea05 on /repo main:
+# files of an earlier export with the same label are replaced, not labelled twice); VT_C13_LABEL_HISTORY=0 switches them off
+LABEL_HISTORY = os.environ.get('VT_C13_LABEL_HISTORY', '1') == '1'
 LINK_KINDS = ['abs', 'abs', 'rel', 'chain', 'hard']
 CORRUPT = ['uuids_short', 'uuids_long', 'uuids_junk', 'npy_rows', 'delete_some', 'empty_files']
 
